@@ -5,12 +5,14 @@
 mod api;
 mod build;
 mod coding;
+mod d_enc;
 mod d_io;
 mod d_lzma;
 mod d_lzma2;
 mod d_reader;
 mod d_reuse;
 mod d_stream;
+mod d_total;
 mod d_xz;
 mod io;
 mod kernel;
@@ -157,6 +159,16 @@ fn main() {
             d_reuse::run(&prop, seed, a.num("histories", 40) as usize, a.get("trace"), &mut rep);
             finish(rep, &a);
         }
+        "enc" => {
+            let mut rep = Report::new("enc");
+            d_enc::run(&prop, seed, a.get("thorough").is_some(), a.get("trace"), &mut rep);
+            finish(rep, &a);
+        }
+        "total" => {
+            let mut rep = Report::new("total");
+            d_total::run(&prop, seed, a.num("from", 0), a.num("count", 20000), a.get("trace"), &mut rep);
+            finish(rep, &a);
+        }
         "xzlib" => {
             let lib = d_xz::payload_lib();
             let v: Vec<serde_json::Value> = lib.iter().map(|(p, o)| serde_json::json!({"plen": p.len(), "ulen": o.len()})).collect();
@@ -187,6 +199,8 @@ fn main() {
                 "lzma2" => d_lzma2::replay_value(case, &prop, &mut rep),
                 "io" => d_io::replay_value(case, &prop, &mut rep),
                 "reader" => d_reader::replay_value(case, &prop, &mut rep),
+                "total" => d_total::replay_value(case, &prop, &mut rep),
+                "enc" => d_enc::run(&prop, case["seed"].as_u64().unwrap_or(1), false, None, &mut rep),
                 "reuse" => {
                     let sd = case["seed"].as_u64().unwrap_or(1);
                     d_reuse::run(&prop, sd, case["history"].as_u64().unwrap_or(0) as usize + 1, None, &mut rep);
